@@ -78,6 +78,10 @@ pub(crate) fn dash_to_camel(s: &str) -> CompactString {
             camel_name.push(c);
         }
     }
+    if next_upper && !camel_name.is_empty() {
+        // a trailing dash has nothing to upper-case: keep it, so that `name-` does not become `name`
+        camel_name.push('-');
+    }
     if camel_name.is_empty() {
         // a name made of dashes only has no camel-case form: keep it (an empty name cannot be written back)
         return s.into();
